@@ -1,4 +1,14 @@
 import CoxeterVerif.Model.MeshIO
+/-!
+  Helper lemmas of C20, part 1 (no Mathlib needed):
+  * text layer: `splitOn`/`join` are inverse on separator-free pieces; `tokenize (render L) = L` for lines of
+    well-formed tokens (also with tab indentation); `content += line + "\n"` loops followed by `[:-1]` are
+    `join "\n"` (`foldl_append_eq`, `dropLast_unl`);
+  * decimal numbers: `parseNat (dec n) = some n`, `parseInt (decI i) = some i`, digits are not separators;
+  * counted token streams: `takeVerts`/`takeFaces` consume exactly what the writers emit (`readBody_flat`);
+  * `Mesh.WF` and the OBJ format.
+-/
+set_option linter.unusedSimpArgs false
 namespace MeshIO
 
 /-! ## text layer -/
